@@ -245,11 +245,28 @@ def sizing_instances(ctx, em, rule, reply_keys=("Liquidate>id6", "Liquidate>id7"
                 continue
             badc = None
             ncalls = 0
+            # what the realising helper is asked to realise on the paths that call it (normal forms)
+            from ..norm import N as _N2
+            realised_args = set()
             for q in st.ok_paths():
+                for e in q.events:
+                    if e.target is not None and short_fn(e.target) in verified:
+                        for a_ in e.args:
+                            if "Uint128" in str(e.target.locals[1 + e.args.index(a_)]["ty"]) if e.args.index(a_) < e.target.arg_count else False:
+                                realised_args.add(_N2(ix, st.c(a_)))
+            for q in st.ok_paths():
+                helper_called = any(e.target is not None and short_fn(e.target) in verified for e in q.events)
                 for e in q.events:
                     if e.target is None or e.target.key != k or pidx >= len(e.args):
                         continue
                     ncalls += 1
+                    if not helper_called and realised_args:
+                        # nothing is realised on this path: only where the path has established that there is nothing
+                        # to realise (the figure the helper gets elsewhere is zero here)
+                        zero_known = any(c[1] is True and tag(c[0]) == "op" and payload(c[0])[0] == "is_zero" and kids(c[0]) and
+                                         _N2(ix, st.c(kids(c[0])[0])) in realised_args for c in q.conds)
+                        if not zero_known:
+                            badc = badc or "pays out without realising the bad debt on a path that has not established it to be zero"
                     a = ix.inline(e.args[pidx])
                     a0 = a
                     while tag(a0) in ("unwrap",):
